@@ -115,7 +115,31 @@ def show(e):
     return k or "?"
 
 
+_CLOSURE_RENDER = [None]
+
+
+def _pnames(p, out):
+    k = p.get("k")
+    if k == "PIdent":
+        out.append(p["name"])
+        if p.get("sub"):
+            _pnames(p["sub"], out)
+    elif k == "PRef":
+        _pnames(p["pat"], out)
+    elif k in ("PTuple", "PTupleStruct", "PSlice"):
+        for e in p["elems"]:
+            _pnames(e, out)
+    elif k == "PStruct":
+        for f in p["fields"]:
+            _pnames(f["pat"], out)
+    elif k == "PType":
+        _pnames(p["pat"], out)
+
+
 def showv(v):
+    if isinstance(v, tuple) and v and v[0] == "closure":
+        r = _CLOSURE_RENDER[0]
+        return r.closure_text(v) if r is not None else "|..|" + show(v[1]["body"])
     if isinstance(v, bool):
         return "true" if v else "false"
     if isinstance(v, int):
@@ -141,7 +165,7 @@ def showv(v):
 
 
 def is_unk(v):
-    return isinstance(v, tuple) and v[0] in ("unk", "obj")
+    return isinstance(v, tuple) and v[0] in ("unk", "obj", "closure")
 
 
 class Config:
@@ -165,12 +189,16 @@ class Config:
         self.accessors = kw.get("accessors", set())
         # integer-valued fields sampled over a finite partition: path -> list of sample ints
         self.int_fields = kw.get("int_fields", {})
+        # render call results with their arguments (generic normal forms) or as f() (tokenizer tables)
+        self.full_call_text = kw.get("full_call_text", False)
 
 
 class Run:
     """one deterministic evaluation under a script of choices"""
 
     def __init__(self, cfg, script):
+        if _CLOSURE_RENDER[0] is None or not getattr(self, "no_choice", False):
+            _CLOSURE_RENDER[0] = self
         self.cfg = cfg
         self.script = list(script)
         self.pos = 0
@@ -184,6 +212,10 @@ class Run:
     def choose(self, kind, label, options):
         if self.no_choice:
             raise NeedChoice(kind, label, options)
+        if kind == "guard":
+            k = sum(1 for c in self.choices if c[0] == "guard" and (c[1] == label or c[1].startswith(label + "#")))
+            if k:
+                label = "%s#%d" % (label, k + 1)
         if self.pos < len(self.script):
             i = self.script[self.pos]
             self.pos += 1
@@ -358,7 +390,7 @@ class Run:
             if lab in self.cfg.guards and lab.startswith("self.") and "(" not in lab:
                 self.fields[lab] = r
             return (not r) if neg else r
-        raise Unsupported("condition value %r" % (v,))
+        return self.choose("guard", "cond:" + showv(v), [("true", True), ("false", False)])
 
     # ------------------------------------------------------------- expressions
     def eval(self, e, env):
@@ -436,6 +468,22 @@ class Run:
             if self.truth(l, None):
                 return True
             return self.eval(e["r"], env)
+        if op.endswith("=") and op not in ("==", "!=", "<=", ">="):
+            # compound assignment
+            r = self.resolve(self.eval(e["r"], env))
+            t = e["l"]
+            while t["k"] in ("Unary", "Ref"):
+                t = t["e"]
+            if t["k"] == "Path" and t["path"] in env and not (isinstance(env[t["path"]], tuple) and env[t["path"]][0] == "obj"):
+                old = env[t["path"]]
+                if isinstance(old, int) and not isinstance(old, bool) and isinstance(r, int) and not isinstance(r, bool) and op in ("+=", "-="):
+                    env[t["path"]] = old + r if op == "+=" else old - r
+                else:
+                    env[t["path"]] = ("unk", "(%s %s %s)" % (showv(old), op[:-1], showv(r)))
+                return UNIT
+            place = self.place_of(e["l"], env)
+            self.act("assign%s %s" % (op[:-1], place), [r])
+            return UNIT
         l = self.resolve(self.eval(e["l"], env))
         r = self.resolve(self.eval(e["r"], env))
         if is_unk(l) or is_unk(r):
@@ -530,6 +578,8 @@ class Run:
             return "_" if p.get("sub") is None else self.showpat(p["sub"])
         if k == "PWild":
             return "_"
+        if k == "PRest":
+            return ".."
         if k in ("PPath",):
             a = decode_atom(p["path"])
             return ("atom:" + a[1]) if a else p["path"].split("::")[-1]
@@ -639,7 +689,44 @@ class Run:
         return ("unk", show(e))
 
     def e_Closure(self, e, env):
-        return ("unk", show(e))
+        return ("closure", e, dict(env))
+
+    def closure_text(self, c):
+        """canonical text of a closure: captured variables replaced by their values, parameters positional"""
+        e, cenv = c[1], dict(c[2])
+        for i, p in enumerate(e["params"]):
+            names = []
+            _pnames(p, names)
+            for n in names:
+                cenv[n] = ("unk", "a%d" % (i + 1) if len(names) == 1 else "a%d.%d" % (i + 1, names.index(n)))
+        sub = Run(self.cfg, [])
+        sub.fields = dict(self.fields)
+        sub.no_choice = True
+        sub.depth = self.depth + 1
+        try:
+            v = sub.eval(e["body"], cenv)
+            acts = "; ".join("%s(%s)" % (a, ",".join(showv(x) for x in args)) for a, args in sub.actions)
+            return "|..|{%s%s%s}" % (acts, " => " if acts else "", showv(v))
+        except _Return as r:
+            acts = "; ".join("%s(%s)" % (a, ",".join(showv(x) for x in args)) for a, args in sub.actions)
+            return "|..|{%s => return %s}" % (acts, showv(r.v))
+        except (NeedChoice, Unsupported, _Infeasible, _Break, _Continue, _LoopBack, KeyError, IndexError, TypeError):
+            return "|..|" + show(e["body"])
+
+    def apply_closure(self, c, args):
+        e, cenv = c[1], dict(c[2])
+        for p, a in zip(e["params"], args):
+            self.match(p, a, cenv)
+        self.depth += 1
+        if self.depth > 8:
+            raise Unsupported("closure depth")
+        try:
+            try:
+                return self.eval(e["body"], cenv)
+            except _Return as r:
+                return r.v
+        finally:
+            self.depth -= 1
 
     def _summary_loop(self, what, body, env):
         """a data-dependent loop inside a helper: its body is evaluated once, bracketed by loop markers"""
@@ -739,6 +826,9 @@ class Run:
             args = [self.eval(a, env) for a in e["args"]]
             return ("unk", "indirect-call")
         p = f["path"]
+        if p in env and isinstance(env[p], tuple) and env[p][0] == "closure":
+            args = [self.eval(a, env) for a in e["args"]]
+            return self.apply_closure(env[p], args)
         last = p.split("::")[-1]
         if last[:1].isupper() and not last.isupper() and p not in self.cfg.inline:
             args = tuple(self.eval(a, env) for a in e["args"])
@@ -753,6 +843,9 @@ class Run:
                 return ("unk", "Self::%s()" % last)
             self.act("call Self::" + last, [self.argv(a) for a in args])
             return ("unk", "Self::%s()" % last)
+        if last in ("panic_fmt", "panic", "panic_display", "unreachable_display", "panic_explicit", "assert_failed", "begin_panic", "panic_str", "unreachable"):
+            self.act("panic!")
+            raise _Return(("unk", "!"))
         args = [self.eval(a, env) for a in e["args"]]
         if last == "from_u32" and len(args) == 1 and isinstance(self.resolve(args[0]), int):
             n = self.resolve(args[0])
@@ -769,7 +862,7 @@ class Run:
             else:
                 rargs.append(av)
         self.act("call " + last, [self.argv(a) for a in rargs])
-        return ("unk", "%s(..)" % last)
+        return ("unk", "%s(%s)" % (last, ",".join(showv(a) for a in rargs)) if self.cfg.full_call_text else "%s(..)" % last)
 
     def char_method(self, ch, m, args):
         c = ch[1]
@@ -849,20 +942,20 @@ class Run:
                     return ("obj", "%s.%s(%s)" % (root, m, ",".join(showv(a) for a in args)))
                 if m in self.cfg.primitives:
                     self.act(m, [self.argv(a) for a in args])
-                    return ("unk", "self.%s()" % m)
+                    return ("unk", "self.%s(%s)" % (m, ",".join(showv(a) for a in args)) if self.cfg.full_call_text else "self.%s()" % m)
                 if m in self.cfg.inline:
                     return self.inline_fn(self.cfg.inline[m], recv, args)
             if m in PURE_METHODS:
                 return ("unk", "%s.%s(%s)" % (root, m, ",".join(showv(a) for a in args)))
             self.act(full, [self.argv(a) for a in args])
-            return ("unk", full + "()")
+            return ("unk", "%s(%s)" % (full, ",".join(showv(a) for a in args)) if self.cfg.full_call_text else full + "()")
         if is_unk(recv):
             if m in PURE_METHODS:
                 return ("unk", "%s.%s(%s)" % (showv(recv), m, ",".join(showv(a) for a in args)))
             # effect on something derived from an unknown (e.g. a borrow of a field)
             pl = self.place_of(e["recv"], env)
             self.act(pl + "." + m, [self.argv(a) for a in args])
-            return ("unk", "%s.%s()" % (pl, m))
+            return ("unk", "%s.%s(%s)" % (pl, m, ",".join(showv(a) for a in args)) if self.cfg.full_call_text else "%s.%s()" % (pl, m))
         if isinstance(recv, tuple) and recv[0] == "str":
             if m == "len":
                 return len(recv[1].encode())
